@@ -250,7 +250,7 @@ fn check_byte_family(c: &CheckByte) -> Result<(), String> {
 
 pub fn run(ctx: &mut Ctx) {
     ctx.rule("written: entries written with with_deprecated_encryption over passwords {empty, 1 byte, printable, arbitrary Unicode, NUL/0x7f/0x80/0xff code points, 200-300 bytes} x every method/level x contents x position in the archive: independent PKWARE implementation decrypts the raw data (check byte = CRC high byte, payload decodes to the plaintext), plaintext absent from the file, same password reads back, none -> password-required, different password -> rejected or read error, password ignored for plain neighbours; a sample also decrypted by CPython zipfile and unzip. foreign: entries encrypted by the independent builder (random 11-byte header; CRC-byte and Info-ZIP time-byte validation with data descriptors). checkbyte: the 256 possible validation bytes x both variants (exhaustive) against a fixed wrong password. Non-trivial = non-empty content and non-empty password.");
-    let n = ctx.q(6000, 80000);
+    let n = ctx.q(20000, 150000);
     let maxc = ctx.q(40000u32, 1 << 20);
     let ext: Mutex<Vec<(Vec<u8>, Option<String>, serde_json::Value)>> = Mutex::new(Vec::new());
     let budget = ctx.q(150usize, 3000);
@@ -307,7 +307,7 @@ pub fn run(ctx: &mut Ctx) {
             Err(e) => ctx.assume(&format!("external decryptors could not run: {e}")),
         }
     }
-    let nf = ctx.q(6000, 80000);
+    let nf = ctx.q(30000, 300000);
     ctx.explore::<FCase>(
         "foreign",
         nf,
